@@ -105,7 +105,8 @@ Check_ENC(r, raw) ==
             <<"decodes", r.dec_ok>>,
             <<"round_trip", r.dec_ok => r.dec = Canon(def, r.vals, r.v2)>>,
             <<"buffer_untouched", ~r.src_mod /\ ~r.tail_mod>>,
-            <<"same_payload_decodes_the_same_after_caller_edit", ~r.again_differs>> >>)
+            <<"same_payload_decodes_the_same_after_caller_edit", ~r.again_differs>>,
+            <<"decoded_message_outlives_the_callers_buffer", ~r.aliases_input>> >>)
 
 \* C04 - message.ReadWriter.Read of an arbitrary payload
 Check_DEC(r, raw) ==
@@ -116,5 +117,6 @@ Check_DEC(r, raw) ==
                <<"values", (r.ok /\ d.ok) => r.vals = d.vals>>,
                <<"payload_untouched", ~r.src_mod>>,
                <<"tail_untouched", ~r.tail_mod>>,
-               <<"same_payload_decodes_the_same_after_caller_edit", ~r.again_differs>> >>)
+               <<"same_payload_decodes_the_same_after_caller_edit", ~r.again_differs>>,
+            <<"decoded_message_outlives_the_callers_buffer", ~r.aliases_input>> >>)
 =============================================================================
